@@ -315,16 +315,70 @@ def corpus_cases():
     return corpus
 
 
+def generated_paths():
+    """systematic directed paths written at check time: every integer encoder (the variant index is the first draw byte of an
+    integer emission) on a structured value set: 0, +-2^k, +-2^k - 1, +-2^k + 1 for k < 32 as 32-bit two's complement - the sign and
+    length boundaries of INT / BININT1 / BININT2 / BININT / LONG / LONG1 / LONG4; then floats and EXT codes at their edges"""
+    vals = {0}
+    for k in range(32):
+        for d in (-1, 0, 1):
+            for sg in (1, -1):
+                x = sg * (1 << k) + d
+                if -2**31 <= x < 2**31:
+                    vals.add(x)
+    vals = sorted(vals)
+    lines = []
+    for v in range(6):
+        nvar = 2 if v == 0 else 5 if v == 1 else 7
+        items = ['INT:%02x%s' % (i, (x & 0xFFFFFFFF).to_bytes(4, 'little').hex()) for i in range(nvar) for x in vals]
+        for c in range(0, len(items), 120):
+            chunk = items[c:c + 120]
+            # POP keeps the stack shallow so that the tail stays short; MARK ... makes an under-run visible
+            lines.append('v=%d path=%s' % (v, ';'.join(chunk)))
+    fl = ['0000000000000000', '000000000000f03f', '000000000000f07f', '000000000000f0ff', '000000000000f87f', '0100000000000000',
+          'ffffffffffffef7f', '0000000000000080', '182d4454fb210940', '9a9999999999b93f', '000000000000e0c3', '0000000000004043']
+    for v in range(6):
+        lines.append('v=%d path=%s' % (v, ';'.join(['FLOAT:' + x for x in fl] + (['BINFLOAT:' + x for x in fl] if v >= 1 else []))))
+    # aliasing: every way of getting a second handle on a container (DUP, each PUT/GET pair, MEMOIZE), then every in-place
+    # mutation through one handle while the other is alive (S7 compares Rc identities step by step with Heap.v)
+    pairs = {0: [('PUT', 'GET')], 1: [('PUT', 'GET'), ('BINPUT', 'BINGET'), ('LONG_BINPUT', 'LONG_BINGET'), ('BINPUT', 'LONG_BINGET'), ('LONG_BINPUT', 'GET')]}
+    for v in (2, 3):
+        pairs[v] = pairs[1]
+    for v in (4, 5):
+        pairs[v] = pairs[1] + [('MEMOIZE', 'BINGET'), ('MEMOIZE', 'LONG_BINGET'), ('MEMOIZE', 'GET')]
+    for v in range(6):
+        al = []
+        for (pu, ge) in pairs[v]:
+            al += ['EMPTY_LIST;%s;%s;%s;APPEND' % (pu, ge, ge), 'EMPTY_LIST;DUP;%s;APPEND' % pu, 'EMPTY_LIST;%s;DUP;APPEND;%s;APPEND' % (pu, ge),
+                   'EMPTY_LIST;%s;%s;APPEND;%s;APPEND' % (pu, ge, ge), 'EMPTY_DICT;%s;NONE;%s;SETITEM' % (pu, ge),
+                   'EMPTY_DICT;%s;%s;NONE;SETITEM;%s;NONE;SETITEM' % (pu, ge, ge), 'EMPTY_LIST;%s;MARK;%s;%s;APPENDS' % (pu, ge, ge),
+                   'EMPTY_LIST;%s;EMPTY_TUPLE;%s;TUPLE2;APPEND' % (pu, ge), 'EMPTY_LIST;%s;MARK;%s;TUPLE;APPEND' % (pu, ge)]
+            if v >= 4:
+                al += ['EMPTY_SET;%s;MARK;%s;ADDITEMS' % (pu, ge), 'EMPTY_SET;DUP;%s;MARK;NONE;ADDITEMS' % pu]
+        if v < 1:
+            al = [a.replace('EMPTY_LIST', 'MARK;LIST').replace('EMPTY_DICT', 'MARK;NONE;NONE;DICT').replace('EMPTY_TUPLE', 'MARK;TUPLE') for a in al if 'TUPLE2' not in a and 'APPENDS' not in a]
+        for a in al:
+            lines.append('v=%d path=%s' % (v, a))
+    for v in (2, 5):
+        ext = ['EXT1:00', 'EXT1:01', 'EXT1:fe', 'EXT1:ff', 'EXT2:0000', 'EXT2:0100', 'EXT2:feff', 'EXT2:ffff', 'EXT4:00000000', 'EXT4:01000000',
+               'EXT4:fdffff7f', 'EXT4:feffff7f', 'EXT4:ffffff7f', 'EXT4:00000080', 'EXT4:feffffff', 'EXT4:ffffffff']
+        lines.append('v=%d ext=1 path=%s' % (v, ';'.join(ext)))
+    return lines
+
+
 def compiled_paths(log):
     """corpus/*.paths: opcode paths compiled by the model into fuzzer inputs (directed cases)"""
     out = []
     cdir = os.path.join(VERIF, 'corpus')
-    for f in sorted(os.listdir(cdir)) if os.path.isdir(cdir) else []:
+    os.makedirs(BUILD, exist_ok=True)
+    gp = os.path.join(BUILD, 'generated.paths')
+    open(gp, 'w').write('\n'.join(generated_paths()) + '\n')
+    for f in [os.path.join(cdir, x) for x in (sorted(os.listdir(cdir)) if os.path.isdir(cdir) else [])] + [gp]:
         if f.endswith('.paths'):
-            p = subprocess.run([DRIVER, 'paths', os.path.join(cdir, f)], stdout=subprocess.PIPE, stderr=subprocess.PIPE, text=True, env=ENV, timeout=600)
+            p = subprocess.run([DRIVER, 'paths', f], stdout=subprocess.PIPE, stderr=subprocess.PIPE, text=True, env=ENV, timeout=600)
             for l in p.stderr.splitlines():
                 log('paths: ' + l)
-            tag = os.path.splitext(f)[0][:3]
+            tag = os.path.splitext(os.path.basename(f))[0][:3]
             out += [l.replace('id=p', 'id=p%s' % tag, 1) for l in p.stdout.splitlines() if l.startswith('id=')]
     return out
 
@@ -552,8 +606,12 @@ def gen_s6_vectors(seed, tier):
         rate = rng.choice([None, 0.1, 0.0, 1.0, 0.5, 2.5, -1.0, 0.25])
         vecs.append(dict(id='f%d' % i, protocol=proto, seed=sd, min=mn, max=mx, mutators=muts, rate=rate,
                          unsafe=int(rng.below(3) == 0), ext=int(rng.below(3) == 0), buf=int(rng.below(3) == 0)))
-    # every single flag on its own (a swapped or dropped flag must show)
+    # other spellings of the same options (leading zeros, the top of the u64 range): clap reads them as decimal
     k = n
+    for (sd, txt) in ((10, '010'), (42, '0042'), (777, '0777'), (8, '08'), (2**63, None), (2**63 - 1, None), (2**64 - 1, None), (2**32, '04294967296')):
+        vecs.append(dict(id='f%d' % k, protocol='-', seed=sd, seed_text=txt, min=None, max=None, mutators=[], rate=None, unsafe=0, ext=0, buf=0))
+        k += 1
+    # every single flag on its own (a swapped or dropped flag must show)
     for proto in ('5', '2'):
         for (u, e, b) in ((1, 0, 0), (0, 1, 0), (0, 0, 1), (1, 1, 0), (0, 1, 1)):
             for muts in ([], ['all'], ['memoindex', 'typeconfusion']):
@@ -567,7 +625,7 @@ def vec_argv(v):
     a = []
     if v['protocol'] != '-':
         a += ['--protocol', v['protocol']]
-    a += ['--seed', str(v['seed'])]
+    a += ['--seed', v.get('seed_text') or str(v['seed'])]
     if v['min'] is not None:
         a += ['--min-opcodes', str(v['min'])]
     if v['max'] is not None:
@@ -595,7 +653,7 @@ def vec_env(v, out_file=None, out_dir=None, samples=None):
     e = {}
     if v['protocol'] != '-':
         e['INPUT_PROTOCOL'] = v['protocol']
-    e['INPUT_SEED'] = str(v['seed'])
+    e['INPUT_SEED'] = v.get('seed_text') or str(v['seed'])
     if v['min'] is not None:
         e['INPUT_MIN_OPCODES'] = str(v['min'])
     if v['max'] is not None:
@@ -675,6 +733,18 @@ def run_s6(seed, tier, log):
             continue
         got = open(out, 'rb').read()
         fronts.append((v['id'], what, v['id'], got))
+        idnum = int(v['id'][1:]) if v['id'][1:].isdigit() else -1
+        if len(v['mutators']) > 1 or idnum % 4 == 0:
+            # C07 through the CLI: further processes (fresh hash seeds, fresh address space) must write the same bytes
+            for rep in range(3):
+                q2 = subprocess.run(argv, stdout=subprocess.PIPE, stderr=subprocess.PIPE, timeout=300)
+                nrun += 1
+                again = open(out, 'rb').read() if q2.returncode == 0 and os.path.exists(out) else None
+                if again != got:
+                    props.append({'id': v['id'] + '-rerun', 'prop': 'C07', 'detail': 'the same command line wrote different bytes in another process (run %d: %s..., first run %s...)' % (
+                        rep + 2, (again or b'').hex()[:32], got.hex()[:32])})
+                    specs[v['id'] + '-rerun'] = what
+                    break
         if expect.get(v['id']) is None:
             fail(v['id'], what, 'the library call for the configuration computed by the model did not return a pickle')
         elif got != expect[v['id']]:
@@ -718,6 +788,7 @@ def run_s6(seed, tier, log):
     script = os.path.join(REPO, 'scripts', 'action-run.sh')
     # regression (finding L): mutators directly followed by the output file
     act_vecs = [vecs[-1]] + [v for v in vecs[:: max(1, len(vecs) // (15 if tier == 'quick' else 80))] if v['rate'] is None or v['rate'] >= 0]
+    act_vecs += [v for v in vecs if v.get('seed_text') or v['seed'] >= 2**63 and v['mutators'] == [] and v['protocol'] == '-'][:10]
     for v in act_vecs:
         out = os.path.join(tmp, 'act_%s.pkl' % v['id'])
         q = subprocess.run(['bash', script], stdout=subprocess.PIPE, stderr=subprocess.PIPE, timeout=300,
@@ -844,7 +915,7 @@ json.dump(out, sys.stdout)
     shards = shard_trace(op, 16)
     procs = [subprocess.Popen([DRIVER, 'oracles', s_], stdout=subprocess.PIPE, stderr=subprocess.STDOUT, text=True, env=ENV) for s_ in shards]
     outs = [q.communicate(timeout=3000)[0] for q in procs]
-    n13 = len(props)
+    n13 = len([p_ for p_ in props if p_['prop'] == 'C13'])
     for pr in parse_verdicts('\n'.join(outs))['props']:
         pr['detail'] += ' (output of a front end, judged under the configuration its options denote)'
         props.append(pr)
@@ -970,6 +1041,14 @@ def gen_s3_cases(seed, tier):
             cases.append('id=a%d rate=%s src=%s ops=%s' % (k, rate, h, ';'.join(ops)))
             k += 1
         pi += 1
+    # directed: memo-index mutations whose range draw hits a chosen value (the draw equal to the input index, the ends of
+    # the range): 8 zero bytes open the gate at any positive rate, the next two bytes are the big-endian range draw
+    for m in ('memoindex.1', 'memoindex.0', 'offbyone'):
+        for v in MEMOS + [998, 3, 500]:
+            for d in sorted(set([v % 1000, (v + 1) % 1000, 0, 1, 998, 999])):
+                cases.append('id=a%d rate=%s src=bytes:%s ops=%s' % (k, rates[2], '00' * 8 + '%04x' % d + '00' * 10,
+                                                                  'mm:%s:%x;mm:%s:%x' % (m, v, m, v)))
+                k += 1
     for sidx, src in enumerate(srcs):
         ops = [pool[rng.below(len(pool))] for _ in range(nops)]
         cases.append('id=a%d rate=%s src=%s ops=%s' % (k, rates[rng.below(len(rates))], src, ';'.join(ops)))
